@@ -266,9 +266,9 @@ var openFlagSets = func() []int {
 // OpenFlagSets returns the 36 meaningful flag sets.
 func OpenFlagSets() []int { return openFlagSets }
 
-var dirPerms = []uint32{0o755, 0o700, 0o777, 0o750, 0}
-var filePerms = []uint32{0o644, 0o600, 0o666, 0o400, 0}
-var chmodPerms = []uint32{0, 0o644, 0o755, 0o777, 0o1777, 0o400, 0o1755, 0o600}
+var dirPerms = []uint32{0o755, 0o700, 0o777, 0o750, 0, 0o1777, 0o755, 0o2755, 0o4711}
+var filePerms = []uint32{0o644, 0o600, 0o666, 0o400, 0, 0o4755, 0o644, 0o2644, 0o1600, 0o6775}
+var chmodPerms = []uint32{0, 0o644, 0o755, 0o777, 0o1777, 0o400, 0o1755, 0o600, 0o4755, 0o2750, 0o6711, 0o2644}
 var ids = []int64{-1, 0, 1000}
 var truncSizes = []int64{-1, 0, 1, 3, 7, 40}
 
